@@ -387,11 +387,10 @@ theorem evalLitNum_litInt (order : List String) (σ : Nat → Bool) (l : Lit) (h
   | mk neg var =>
     have hA : ¬ ((i : Int) + 1 < 0) := by omega
     have hB : ((i : Int) + 1).natAbs = i + 1 := by omega
-    have hC : (-((i : Int) + 1) < 0) := by omega
     simp only at hi
     cases neg
     · simp [litInt, num, hi, Lit.eval, evalLitNum, hA, hB]
-    · simp [litInt, num, hi, Lit.eval, evalLitNum, hB, hC]
+    · simp [litInt, num, hi, Lit.eval, evalLitNum, hB]
 
 theorem clauseBExp_eval (ρ : Env) : ∀ c : Clause, (clauseBExp c).eval ρ = c.any (Lit.eval ρ)
   | [] => rfl
